@@ -48,7 +48,7 @@ static uint64_t lu_digest(hs_t *H, uint64_t h)
 }
 
 /* new values on the same pattern: generation k */
-static void new_values(hs_t *H, uint64_t seed, int k, int keep_pivots)
+static void new_values(hs_t *H, uint64_t seed, int k, int keep_pivots, int zero_pivots)
 {
     rng_t r = { seed * 7919ULL + (uint64_t)k * 104729ULL + 13 };
     /* keep_pivots: a small perturbation of the CURRENT values; otherwise fresh factors applied to the base values
@@ -65,6 +65,15 @@ static void new_values(hs_t *H, uint64_t seed, int k, int keep_pivots)
         H->G.val[q] = (real_t)(H->G.val[q] * f);
 #endif
     }
+    if (zero_pivots > 0 && H->have_lu) {
+        /* put exact zeros at some old pivot positions (entry (i,j) with perm_r[i] == perm_c[j]), keeping the column non-empty */
+        for (int t = 0; t < zero_pivots; ++t) {
+            int_t j = (int_t)rng_int(&r, H->n);
+            if (H->G.colptr[j + 1] - H->G.colptr[j] < 2) continue;
+            for (int_t q = H->G.colptr[j]; q < H->G.colptr[j + 1]; ++q)
+                if (H->perm_r[H->G.rowind[q]] == H->perm_c[j]) { H->G.val[q] = MKE(0, 0); break; }
+        }
+    }
     free(H->Gd); H->Gd = csc_dense(&H->G);
 }
 
@@ -79,6 +88,7 @@ static int replay_pivots(const ref_t *Gd, int_t n, const int_t *perm_r, const in
         ld mx = 0;
         for (int_t i = k; i < n; ++i) { ld a = rabs1(M[(size_t)k * n + i]); if (a > mx) mx = a; }
         ld pv = rabs1(M[(size_t)k * n + k]);
+        if (u == 0 && pv <= 1e-10L * mx) { verdict = 0; break; }    /* a vanishing pivot may be rounding noise in working precision: undecidable */
         if (pv == 0 || pv < u * mx * (1.0L - 1e-6L)) { verdict = -1; break; }
         if (pv < u * mx * (1.0L + 1e-6L)) verdict = 0;
         ref_t piv = M[(size_t)k * n + k];
@@ -163,7 +173,7 @@ static int hist_core(const case_t *c, int emit)
                     saved = xmalloc((len + 1) * sizeof(elem_t));
                     memcpy(saved, H.G.val + H.G.colptr[zc], len * sizeof(elem_t));
                     for (int_t q = H.G.colptr[zc]; q < H.G.colptr[zc + 1]; ++q) H.G.val[q] = MKE(0, 0);
-                } else if (refact) { ++H.valgen; new_values(&H, seed, H.valgen, usepr && (H.valgen % 2 == 0)); }
+                } else if (refact) { ++H.valgen; new_values(&H, seed, H.valgen, usepr && (H.valgen % 2 == 0), (int)cint(c, "zeropiv", 0)); }
                 long lwork = 0; void *work = NULL;
                 if (op == 'Q') lwork = -1;
                 else if (refact) { lwork = H.lwork; work = H.work; }
@@ -226,6 +236,15 @@ static int hist_core(const case_t *c, int emit)
                         jo_fail("C14|unexpected-oom", "factorization returned info = %ld > n although memory was sufficient", (long)info);
                     pxgstrf_finalize(&H.opt, &H.AC); H.have_ac = 0; H.have_opt = 0; H.have_lu = 0;
                     stop = 1; break;
+                }
+                if (info > 0 && info <= n && cint(c, "zeropiv", 0) > 0) {
+                    /* exact zeros were planted at old pivot positions: the matrix may have become structurally singular */
+                    csc_t Z = csc_clone(&H.G); int_t q2 = 0;
+                    for (int_t j = 0; j < n; ++j) { int_t b0 = Z.colptr[j]; Z.colptr[j] = q2; for (int_t q = b0; q < H.G.colptr[j + 1]; ++q) if (rabs(E2R(H.G.val[q])) != 0) { Z.rowind[q2] = H.G.rowind[q]; Z.val[q2] = H.G.val[q]; ++q2; } }
+                    Z.colptr[n] = q2; Z.nnz = q2;
+                    long def = struct_rank_prefix(&Z, H.perm_c);
+                    csc_free(&Z);
+                    if (def > 0) { jo_int("became_singular", 1); H.have_lu = 1; stop = 1; break; }
                 }
                 if (info != 0) { snprintf(key, sizeof key, "C08|info-nonzero|%c", op); jo_fail(key, "op %ld (%c%d): info = %ld for a nonsingular matrix", nops, op, arg, (long)info); H.have_lu = (info > 0 && info <= n); stop = 1; break; }
                 H.have_lu = 1;
